@@ -128,7 +128,7 @@ class Runner:
         lvl = c["lvl"]
         fn = ROUTES[(c["op"], lvl)]
         mp = self.mp
-        if lvl == "libmp":
+        if lvl in ("libmp", "libmpint"):
             return fn(self.libmp, [py_raw(a) for a in c["args"]], c["p"], c["r"], c["kw"])
         saved = mp.prec
         try:
@@ -158,6 +158,8 @@ ROUTES = {
     ("sub", L): lambda lm, a, p, r, kw: lm.mpf_sub(a[0], a[1], p, r),
     ("mul", L): lambda lm, a, p, r, kw: lm.mpf_mul(a[0], a[1], p, r),
     ("div", L): lambda lm, a, p, r, kw: lm.mpf_div(a[0], a[1], p, r),
+    ("mul", "libmpint"): lambda lm, a, p, r, kw: lm.mpf_mul_int(a[0], a[1], p, r),          # backend-specific implementation (python / gmpy)
+    ("div", "libmpint"): lambda lm, a, p, r, kw: lm.mpf_rdiv_int(a[0], a[1], p, r),          # n / x
     ("sqrt", L): lambda lm, a, p, r, kw: lm.mpf_sqrt(a[0], p, r),
     ("pos", L): lambda lm, a, p, r, kw: lm.mpf_pos(a[0], p, r),
     ("neg", L): lambda lm, a, p, r, kw: lm.mpf_neg(a[0], p, r),
